@@ -151,6 +151,13 @@ def gen_ast(rng, depth, callable_, no_text=False, eq=False):
     if k == "i":        # condition and branches of #if / #ifeq are text: '=' has no meaning there
         return ("i", gen_body(rng, d, callable_, maxlen=2, eq=True), gen_body(rng, d, callable_, maxlen=2, eq=True),
                 gen_body(rng, d, callable_, maxlen=2, eq=True) if rng.random() < 0.7 else None)
+    if k == "q" and rng.random() < SEQ_P:
+        a = gen_seq(rng, d, callable_)
+        b = list(a) if rng.random() < 0.5 else (glued(a) or [("t", "x")])
+        if rng.random() < 0.5:
+            a, b = b, a
+        return ("q", a, b, gen_body(rng, d, callable_, maxlen=2, eq=True),
+                gen_body(rng, d, callable_, maxlen=2, eq=True) if rng.random() < 0.7 else None)
     if k == "q":
         return ("q", gen_body(rng, d, callable_, maxlen=2, eq=True), gen_body(rng, d, callable_, maxlen=2, eq=True),
                 gen_body(rng, d, callable_, maxlen=2, eq=True),
@@ -167,9 +174,59 @@ def gen_ast(rng, depth, callable_, no_text=False, eq=False):
             dflt = (True, gen_body(rng, d, callable_, maxlen=2, eq=True))
         elif r < 0.7:
             dflt = (False, gen_body(rng, d, callable_, maxlen=2, allow_empty=False))
-        sc = gen_key(rng, d, callable_) if rng.random() < 0.8 else gen_body(rng, d, callable_, maxlen=2, eq=True)
+        if rng.random() < SEQ_P:
+            # a sequence as the comparison value; one case key is the same sequence (must be hit: equal texts), and - half of the
+            # time, placed BEFORE it - the sequence without its white-space separators (a different text unless they were empty)
+            sc = gen_seq(rng, d, callable_)
+            same = ([], list(sc), gen_body(rng, d, callable_, maxlen=2, eq=True))
+            g = glued(sc)
+            extra = [([], g, [("t", "glued")])] if (g and g != sc and rng.random() < 0.5) else []
+            at = rng.randint(0, len(cases))
+            cases = cases[:at] + extra + [same] + cases[at:]
+        else:
+            sc = gen_key(rng, d, callable_) if rng.random() < 0.8 else gen_body(rng, d, callable_, maxlen=2, eq=True)
         return ("w", sc, cases, dflt)
     raise AssertionError(k)
+
+
+# SEQUENCES.  The comparison value of #switch, its case keys and the operands of #ifeq are TEXT: a sequence of parameters,
+# calls and conditionals with text between them evaluates to the concatenation, trimmed at both ENDS only - white space BETWEEN
+# two nodes ({{{1}}} {{{2}}}, {{a}}<newline>{{b}}) is part of the value.  SEQ_P = probability that such a position holds a
+# generated sequence of 2..3 non-text nodes separated by white-space-only text / non-blank text / nothing.
+SEQ_P = 0.3
+SEQ_SEPS = [" ", " ", "\n", "  ", " \n", " - ", "-", ""]
+
+
+def gen_seq(rng, depth, callable_):
+    n = rng.choice([2, 2, 2, 3])
+    res = []
+    lead = rng.choice(PADS)
+    if lead:
+        res.append(("t", lead))
+    for i in range(n):
+        if i:
+            sep = rng.choice(SEQ_SEPS)
+            if sep:
+                res.append(("t", sep))
+        r = rng.random()
+        if r < 0.5 or depth <= 0:
+            Budget.left -= 1
+            res.append(("p", rng.choice(PNAMES[:3]), None))
+        elif r < 0.75 and callable_:
+            Budget.left -= 1
+            res.append(("c", rng.choice(callable_), []))
+        else:
+            x = gen_ast(rng, depth - 1, callable_, no_text=True)
+            res.append(x if x is not None else ("p", "1", None))
+    trail = rng.choice(PADS)
+    if trail:
+        res.append(("t", trail))
+    return res
+
+
+def glued(seq):
+    """the sequence without its white-space-only text leaves"""
+    return [x for x in seq if not (x[0] == "t" and not x[1].strip())]
 
 
 def gen_key(rng, depth, callable_):
@@ -549,6 +606,76 @@ def num_family():
     return out
 
 
+WS_SEPS = [" ", "\n", "  ", " \n", "\n\n"]
+
+
+def ws_family():
+    """INTERIOR WHITE SPACE, deterministically: a sequence of two or three nodes (parameters, template calls, a parameter and a
+    call, conditionals) separated ONLY by white space (one blank, a newline, two blanks, blank+newline, an empty line), with and
+    without white space at its ends, at every position whose value is compared or returned as text: comparison value of #switch
+    (keys: the spaced text, the glued text, in both orders), a #switch key (fall-through and last), both operands of #ifeq, the
+    condition of #if, the value of a case / #default / bare default, a positional and a named argument, a parameter default.
+    Reference: the value is the concatenation, trimmed at the ends only."""
+    T = lambda s: [("t", s)]      # noqa: E731
+    P = lambda n, d=None: ("p", n, d)      # noqa: E731
+    C = lambda n, a=(): ("c", n, list(a))      # noqa: E731
+    out = []
+    show = ("t1", [("t", "["), P("1"), ("t", "/"), P("k"), ("t", "]")])
+    tx = ("t3", T("x"))
+    ty = ("t4", T("y"))
+    for sep in WS_SEPS:
+        for lead, trail in (("", ""), (" ", " "), ("\n", "")):
+            def seq(*nodes, sep=sep, lead=lead, trail=trail):
+                res = [("t", lead)] if lead else []
+                for i, nd in enumerate(nodes):
+                    if i:
+                        res.append(("t", sep))
+                    res.append(nd)
+                if trail:
+                    res.append(("t", trail))
+                return res
+            sp, gl = "a" + sep + "b", "ab"
+            for order in (0, 1):
+                ks = [([], T(sp), T("spaced")), ([], T(gl), T("joined"))]
+                if order:
+                    ks.reverse()
+                pair = ("t2", [("w", seq(P("1"), P("2")), ks, (True, T("other")))])
+                for args in ([T("a"), T("b")], [T("ab"), []], [T("x"), T("y")], [T(" a "), T(" b ")]):
+                    out.append(([show, pair], [C("t2", [(None, a) for a in args])]))
+            calls = ("t2", [("w", seq(C("t3"), C("t4")), [([], T("xy"), T("glued")), ([], T("x" + sep + "y"), T("apart"))], None)])
+            out.append(([show, tx, ty, calls], [C("t2")]))
+            mixed = ("t2", [("w", seq(P("1"), C("t4"), P("2")), [([T("ayb")], T("a" + sep + "y" + sep + "b"), T("hit")),
+                                                                  ([], T("ay" + sep + "b"), T("half"))], (False, T("none")))])
+            for args in ([T("a"), T("b")], [T("ay"), T("b")], [T(""), T("")]):
+                out.append(([show, tx, ty, mixed], [C("t2", [(None, a) for a in args])]))
+            cond = ("t2", [("w", seq(("i", [P("1", [])], T("p"), T("q")), ("q", [P("1", [])], T("a"), T("r"), T("s"))),
+                            [([], T("p" + sep + "r"), T("pr")), ([], T("pr"), T("glued")), ([], T("q" + sep + "s"), T("qs")),
+                             ([], T("p" + sep + "s"), T("ps"))], (True, T("other")))])
+            for args in ([T("a")], [T("b")], []):
+                out.append(([show, cond], [C("t2", [(None, a) for a in args])]))
+            # the sequence on the KEY side (fall-through key and last key)
+            keyed = ("t2", [("w", T(" " + sp + " "), [([seq(P("1"), P("2"))], T("zz"), T("first")), ([], T(gl), T("glued"))], (True, T("none")))])
+            keyed2 = ("t2", [("w", T(gl), [([], seq(P("1"), P("2")), T("seq")), ([], T(gl), T("glued"))], (True, T("none")))])
+            for tpl in (keyed, keyed2):
+                for args in ([T("a"), T("b")], [T("ab"), []]):
+                    out.append(([show, tpl], [C("t2", [(None, a) for a in args])]))
+            # #ifeq operands, #if condition
+            eq1 = ("t2", [("q", seq(P("1"), P("2")), T(sp), T("same"), T("different")), ("t", "/"),
+                          ("q", T(gl), seq(P("1"), P("2")), T("same"), T("different")), ("t", "/"),
+                          ("q", seq(P("1"), P("2")), seq(P("1"), P("2")), T("same"), T("different")), ("t", "/"),
+                          ("i", seq(P("1", []), P("2", [])), T("set"), T("unset"))])
+            for args in ([T("a"), T("b")], [T("ab"), []], [[], []], [[], T("b")]):
+                out.append(([show, eq1], [C("t2", [(None, a) for a in args])]))
+            # values: the text comes out with its interior white space
+            vals = ("t2", [("t", "<"), ("w", [P("3", T("k"))], [([], T("k"), seq(P("1"), P("2")))], (True, seq(P("2"), P("1")))), ("t", ">"),
+                           ("w", T("q"), [([], T("k"), T("no"))], (False, seq(P("1"), P("2")))), ("t", "<"),
+                           P("zz", seq(P("1"), P("2"))), ("t", ">"),
+                           C("t1", [(None, seq(P("1"), P("2"))), ("k", seq(P("2"), P("1")))])])
+            for args in ([T("a"), T("b")], [T("a"), T("b"), T("other")]):
+                out.append(([show, vals], [C("t2", [(None, a) for a in args])]))
+    return out
+
+
 # OPEN DEFECT (fixes/C04-equal-split-single-node-argument.diff): evaluate.equal_split looks for the eqmark with
 # node.index(eqmark) also when the argument is ONE node - IfNode / IfEqNode are tuple subclasses whose children are their own
 # arguments - so a positional argument, #switch fall-through key or bare default that consists of exactly one #if/#ifeq whose
@@ -603,6 +730,15 @@ def has_eq_text(b):
     return False
 
 
+def has_ws_sep(b):
+    for i, n in enumerate(b):
+        if n[0] == "t" and not n[1].strip() and 0 < i < len(b) - 1 and b[i - 1][0] != "t" and b[i + 1][0] != "t":
+            return True
+        if any(has_ws_sep(s) for s in subs(n)):
+            return True
+    return False
+
+
 def size_of(c):
     return len(c["page_text"]) + sum(len(t) + len(n) for n, t in c["db_text"])
 
@@ -626,6 +762,8 @@ def run(run, src):
         cases.append({"id": len(cases), "uni": uni, "page": page, "directed": True, "family": "eq"})
     for uni, page in num_family():
         cases.append({"id": len(cases), "uni": uni, "page": page, "directed": True, "family": "num"})
+    for uni, page in ws_family():
+        cases.append({"id": len(cases), "uni": uni, "page": page, "directed": True, "family": "ws"})
     if EQ_BRANCH_ARG:
         for uni, page in eq_branch_family():
             cases.append({"id": len(cases), "uni": uni, "page": page, "directed": True, "family": "eq-branch-arg"})
@@ -641,6 +779,7 @@ def run(run, src):
         c["page_text"] = ser_body(c["page"])
         c["db_text"] = [(n, ser_body(b)) for n, b in c["uni"]]
         c["has_eq"] = has_eq_text(c["page"]) or any(has_eq_text(b) for _n, b in c["uni"])
+        c["has_ws_sep"] = has_ws_sep(c["page"]) or any(has_ws_sep(b) for _n, b in c["uni"])
     # model
     p = subprocess.run([exe], input=model_lines(cases), capture_output=True, text=True, timeout=3000)
     if p.returncode != 0:
@@ -732,6 +871,8 @@ def run(run, src):
     dist["eq_text"] = {"programs_with_equals_sign_in_a_text_leaf": sum(1 for c in cases if c.get("has_eq")),
                        "deterministic_eq_family": sum(1 for c in cases if c.get("family") == "eq"),
                        "deterministic_num_family": sum(1 for c in cases if c.get("family") == "num"),
+                       "deterministic_interior_white_space_family": sum(1 for c in cases if c.get("family") == "ws"),
+                       "programs_with_a_white_space_only_text_between_two_nodes": sum(1 for c in cases if c.get("has_ws_sep")),
                        "generated_programs_skipped_for_the_open_equal_split_defect": n_excluded,
                        "VERIF_C04_EQ_BRANCH_ARG": EQ_BRANCH_ARG}
     run.tie("C04(a) templ.parser.parse(serialise p) vs compile p (page + every template)", n_parse, dis_parse)
@@ -752,8 +893,13 @@ def run(run, src):
                  "same value (8 values x up to 16 spellings: signs, zero padding, trailing .0 / bare point, exponent notation with and "
                  "without a fraction, signed exponents, upper-case E), pairs of different values and non-numbers (1e, e3, 1e3x, ..) in "
                  "#ifeq directly, through positional / named arguments, a parameter default, another template, and as #switch keys "
-                 "(literal and computed); the random text leaves use the same spellings; plus directed seeds and the corpus; of the programs whose expansion differs from "
-                 "the reference the %d smallest are reported; " % (EQ_P, len(num_family()), SMALLEST_HITS) +
+                 "(literal and computed); the random text leaves use the same spellings; INTERIOR WHITE SPACE: with probability %.2f the comparison "
+                 "value of a #switch / an operand of #ifeq is a sequence of 2..3 parameters, calls or conditionals separated by white-space-only "
+                 "text (or ' - ', '-', nothing), one case key being the same sequence and (half of the time, before it) the sequence without its "
+                 "separators; ws_family: %d one-construct programs with such sequences (separators blank / newline / two blanks / blank+newline / "
+                 "empty line; with and without padding at the ends) as #switch value, fall-through and last key, #ifeq operands, #if condition, "
+                 "case / #default / bare-default value, positional and named argument, parameter default; plus directed seeds and the corpus; of the programs whose expansion differs from "
+                 "the reference the %d smallest are reported; " % (EQ_P, len(num_family()), SEQ_P, len(ws_family()), SMALLEST_HITS) +
                  "distinct = distinct (page text, template texts); non-trivial = depth >= 2 and >= 3 different constructs"),
         "trusted": ["hand-written Gallina model of evaluate.pyx/nodes.pyx (coq/C03/Model.v) and of the expected parse (compile_r = compile with the '=' of argument texts cut out as eqmark; compile_r p = compile p is proved for programs without '='); tied by the runs (a), (b), (b')",
                     "the reference semantics eval (coq/C04/Model.v) is the reading of the property text: PHP trim set, last binding wins, first matching #switch case wins",
